@@ -20,6 +20,17 @@ import re as _re
 
 _ARR_RE = _re.compile(r"^&(?:mut )?\[[^;\]]+; (\d+)\]$")
 _PROMOTED_RE = _re.compile(r"^_1 = (.*?); _0 = &_1; $")
+def _float_of_bits(v, ty):
+    import struct
+
+    try:
+        if ty == "f64":
+            return struct.unpack("<d", struct.pack("<Q", v & 0xFFFFFFFFFFFFFFFF))[0]
+        return struct.unpack("<f", struct.pack("<I", v & 0xFFFFFFFF))[0]
+    except Exception:
+        return v
+
+
 def _promoted_value(text, ty):
     """value of a promoted constant from the text of its MIR (`_1 = const 0_u8; _2 = &_1; _0 = &_2;`)"""
     defs = {}
@@ -804,6 +815,8 @@ class Interp:
             v = o["val"]
             if isinstance(v, str):
                 v = int(v)
+            if o.get("ty") in ("f32", "f64"):
+                return ("fconst", _float_of_bits(v, o["ty"]), o["ty"])
             t = mk_int(v)
             return t
         if "param" in o:
